@@ -1,5 +1,6 @@
 import Bifrost.Model.Packets
 import Bifrost.Lemmas.Framing
+import Bifrost.Lemmas.Writers
 /-!
 C08 — Packet framing over byte streams preserves packets exactly
 (`rwc.PacketConn` and `stream_packet.Session`). Property theorems only.
@@ -68,6 +69,107 @@ theorem session_over_limit_stops (max : Nat) (hmax : max < 2 ^ 32) (ms : List By
 theorem session_bounded (max fuel : Nat) (cs : Reader) :
     ∀ m ∈ (recvMsgs max fuel cs).1, m.length ≤ max := by
   exact recvMsgs_bounded max fuel cs
+
+/-! ### Writer side: concurrent writers, short writes -/
+
+/-- Concurrent writers. Each `WriteTo` puts ONE whole frame on the wire (`writeFrame`); whatever
+the interleaving `out` of the writers' sequences `ws`, the reader delivers exactly `out` — every
+packet once, unmodified, with its boundaries — for every chunking of the byte stream; `out` is a
+permutation of everything submitted, and every writer's own packets appear in that writer's order. -/
+theorem concurrent_writers_read_back (max : Nat) (hmax : max < 2 ^ 32) (ws : List (List Bytes))
+    (hws : ∀ w ∈ ws, ∀ p ∈ w, 0 < p.length ∧ p.length ≤ max)
+    (out : List Bytes) (h : Interleave ws out)
+    (cs : Reader) (hcat : cs.flatten = wireOf out)
+    (fuel : Nat) (hf : cs.flatten.length < fuel) :
+    rxPump max fuel cs = (out, .eof) ∧ out.Perm ws.flatten ∧
+      (∀ (j : Nat) (w : List Bytes), ws[j]? = some w → w.Sublist out) := by
+  refine ⟨?_, h.perm, h.sublist⟩
+  refine rxPump_frames max hmax out (fun p hp => ?_) cs (by rw [hcat, wireOf_eq]) fuel hf
+  have hp' : p ∈ ws.flatten := h.perm.mem_iff.mp hp
+  obtain ⟨w, hw, hpw⟩ := List.mem_flatten.mp hp'
+  exact hws w hw p hpw
+
+/-- The same for `Session.SendMsg` (serialised by `sendMtx`; empty messages allowed). -/
+theorem concurrent_senders_read_back (max : Nat) (hmax : max < 2 ^ 32) (ws : List (List Bytes))
+    (hws : ∀ w ∈ ws, ∀ m ∈ w, m.length ≤ max)
+    (out : List Bytes) (h : Interleave ws out)
+    (cs : Reader) (hcat : cs.flatten = wireOf out)
+    (fuel : Nat) (hf : cs.flatten.length < fuel) :
+    recvMsgs max fuel cs = (out, .eof) ∧ out.Perm ws.flatten ∧
+      (∀ (j : Nat) (w : List Bytes), ws[j]? = some w → w.Sublist out) := by
+  refine ⟨?_, h.perm, h.sublist⟩
+  refine recvMsgs_frames max hmax out (fun p hp => ?_) cs (by rw [hcat, wireOf_eq]) fuel hf
+  have hp' : p ∈ ws.flatten := h.perm.mem_iff.mp hp
+  obtain ⟨w, hw, hpw⟩ := List.mem_flatten.mp hp'
+  exact hws w hw p hpw
+
+/-- The interleavings are exactly what the schedules of the executable model produce: every
+schedule that drains the writers yields an interleaving, and every interleaving is some schedule. -/
+theorem schedules_are_interleavings (ws : List (List Bytes)) (out : List Bytes) :
+    Interleave ws out ↔
+      ∃ sched, writeSched ws sched = out ∧ ∀ w ∈ schedLeft ws sched, w = [] := by
+  constructor
+  · exact interleave_writeSched
+  · rintro ⟨sched, rfl, hd⟩
+    exact writeSched_interleave ws sched hd
+
+/-- `WriteTo` never truncates silently: whatever the underlying `Write` accepts and reports,
+the caller gets a nil error only if the whole frame reached the wire (and is then told the full
+payload length); a writer that takes the whole frame without error always gives a nil error. -/
+theorem writeTo_full_or_error (p : Bytes) (hp : p ≠ []) (accepted : Nat) (werr : Bool) :
+    (∀ n, (writeTo p accepted werr).1 = .ok n →
+        (writeTo p accepted werr).2 = frame p ∧ n = p.length ∧ werr = false) ∧
+    ((frame p).length ≤ accepted → werr = false → (writeTo p accepted werr).1 = .ok p.length) := by
+  have hl : p.length ≠ 0 := by
+    intro h; exact hp (List.eq_nil_of_length_eq_zero h)
+  have hfl : (frame p).length = 4 + p.length := frame_length p
+  constructor
+  · intro n h
+    unfold writeTo at h ⊢
+    simp only [hl, ↓reduceIte] at h ⊢
+    cases werr with
+    | true => simp at h
+    | false =>
+      simp only [Bool.false_eq_true, ↓reduceIte] at h ⊢
+      split at h
+      · cases h
+      · rename_i hn
+        injection h with h
+        have hge : (frame p).length ≤ min accepted (frame p).length := by omega
+        rw [if_neg hn]
+        refine ⟨List.take_of_length_le hge, ?_, trivial⟩
+        omega
+  · intro ha he
+    subst he
+    unfold writeTo
+    simp only [hl, ↓reduceIte, Bool.false_eq_true]
+    rw [Nat.min_eq_right ha]
+    simp only [Nat.lt_irrefl, ↓reduceIte]
+    congr 1
+
+/-- `SendMsg` reports success exactly when the whole frame reached the wire without error. -/
+theorem sendMsg_full_or_error (p : Bytes) (accepted : Nat) (werr : Bool) :
+    (sendMsg p accepted werr).1 = true ↔
+      (werr = false ∧ (sendMsg p accepted werr).2 = frame p) := by
+  unfold sendMsg
+  simp only [Bool.and_eq_true, Bool.not_eq_eq_eq_not, Bool.not_true, decide_eq_false_iff_not,
+    Nat.not_lt]
+  constructor
+  · rintro ⟨h1, h2⟩
+    exact ⟨h1, List.take_of_length_le h2⟩
+  · rintro ⟨h1, h2⟩
+    refine ⟨h1, ?_⟩
+    have := congrArg List.length h2
+    rw [List.length_take] at this
+    omega
+
+/-- Non-vacuity: two writers, schedule w1 w0 w1 — the wire carries three whole frames and the
+reader returns them in write order. -/
+example : writeSched [[[1, 2]], [[3], [4]]] [1, 0, 1] = [[3], [1, 2], [4]] ∧
+    wireOf [[3], [1, 2], [4]] = [1, 0, 0, 0, 3, 2, 0, 0, 0, 1, 2, 1, 0, 0, 0, 4] ∧
+    rxPump 10 100 [[1, 0, 0, 0, 3, 2, 0], [0, 0, 1, 2, 1, 0, 0, 0, 4]] = ([[3], [1, 2], [4]], .eof) ∧
+    writeTo [7, 8] 5 false = (.err 5, [2, 0, 0, 0, 7]) := by
+  decide
 
 /-- Non-vacuity: two packets split across awkward chunk boundaries. -/
 example : rxPump 10 100 [[2, 0], [0, 0, 7], [8, 1, 0, 0], [0, 9]] = ([[7, 8], [9]], .eof) := by
